@@ -368,7 +368,7 @@ func init() {
 		RealStub: map[string]string{"trust.RetryHTTPSGetter": "real", "wrapped HTTPSGetter": "stub (scripted failures/latency)", "clock": "testing/synctest fake clock", "trust.SimpleHTTPSGetter": "not exercised"},
 		Runs: func(tier string) int {
 			if tier == "thorough" {
-				return nCells + 3000
+				return nCells + 20000
 			}
 			return nCells + 240
 		},
